@@ -136,8 +136,8 @@ pub fn gen_rule(rng: &mut Prng, id: &str, ri: usize, ov_set: bool, allow_html: b
     };
     r.insert("bf".into(), bf);
     r.insert("log".into(), opt_bool(rng, (2, 5), (1, 2)));
-    r.insert("reset".into(), opt_bool(rng, (1, 4), (3, 5)));
-    r.insert("stop".into(), opt_bool(rng, (1, 4), (3, 5)));
+    r.insert("reset".into(), opt_bool(rng, (1, 5), (1, 2)));
+    r.insert("stop".into(), opt_bool(rng, (1, 5), (1, 2)));
     r.insert("ru".into(), opt(rng, 1, 2, format!("ru{ri}")));
     r.insert("lu".into(), opt(rng, 1, 2, format!("lu{ri}")));
     r.insert("th".into(), opt(rng, 1, 3, format!("th{ri}")));
